@@ -88,7 +88,7 @@ class WrapperRig(H.H11Rig):
 
 
 OPENINGS = ["plain", "plain-post", "h2c", "h2c-body", "prior", "prior+frames", "websocket", "h2c-then-more", "h2c-chunked",
-            "h2c-empty-settings", "h2c-body-mid", "h2c-body-first", "websocket-ka", "websocket-mixed"]
+            "h2c-empty-settings", "h2c-body-mid", "h2c-body-first", "websocket-ka", "websocket-mixed", "post-upgrade-websocket"]
 
 
 def opening_bytes(kind):
@@ -115,6 +115,10 @@ def opening_bytes(kind):
         settings = c.initiate_upgrade_connection()
         return (b"POST /up HTTP/1.1\r\nHost: example.com\r\nConnection: Upgrade, HTTP2-Settings\r\nUpgrade: h2c\r\nHTTP2-Settings: "
                 + settings + b"\r\nTransfer-Encoding: chunked\r\n\r\n2\r\nhi\r\n0\r\n\r\n"), c
+    if kind == "post-upgrade-websocket":
+        # a WebSocket starts with a GET (RFC 6455 4.1): the same headers on a POST are plain HTTP/1.1
+        return (b"POST /up HTTP/1.1\r\nHost: example.com\r\nUpgrade: websocket\r\nConnection: Upgrade\r\n"
+                b"Sec-WebSocket-Key: dGhlIHNhbXBsZSBub25jZQ==\r\nSec-WebSocket-Version: 13\r\nContent-Length: 2\r\n\r\nhi"), c
     if kind == "h2c-body-mid":
         # the header announcing the body is neither the first nor the last one
         settings = c.initiate_upgrade_connection()
@@ -195,7 +199,7 @@ def e2e_outcome(kind, split):
     outcome = {"scopes": [(r["scope"]["type"], r["scope"]["http_version"], r["scope"]["path"]) for r in records]}
     errs = [(n, repr(e)) for n, e in d.errors() if not n.startswith("app")]
     outcome["errors"] = errs
-    if kind in ("plain", "plain-post", "h2c-body", "h2c-chunked", "h2c-body-mid", "h2c-body-first"):
+    if kind in ("plain", "plain-post", "h2c-body", "h2c-chunked", "h2c-body-mid", "h2c-body-first", "post-upgrade-websocket"):
         outcome["wire"] = wire.split(b"\r\n")[0]
         outcome["bodies"] = [b"".join(m.get("body", b"") for m in r["received"] if m["type"] == "http.request") for r in records]
     elif kind.startswith("websocket"):
@@ -231,6 +235,7 @@ EXPECT = {
     "h2c-chunked": {"scopes": [("http", "1.1", "/up")], "wire": b"HTTP/1.1 200 ", "bodies": [b"hi"]},
     "h2c-body-mid": {"scopes": [("http", "1.1", "/up")], "wire": b"HTTP/1.1 200 ", "bodies": [b"hi"]},
     "h2c-body-first": {"scopes": [("http", "1.1", "/up")], "wire": b"HTTP/1.1 200 ", "bodies": [b"hi"]},
+    "post-upgrade-websocket": {"scopes": [("http", "1.1", "/up")], "wire": b"HTTP/1.1 200 ", "bodies": [b"hi"]},
     "h2c-empty-settings": {"scopes": [("http", "2", "/up"), ("http", "2", "/after")], "wire": b"HTTP/1.1 101 ",
                            "h2": [("ResponseReceived", 1), ("ResponseReceived", 3), ("StreamEnded", 1), ("StreamEnded", 3)]},
     "websocket": {"scopes": [("websocket", "1.1", "/ws")], "wire": b"HTTP/1.1 101 "},
